@@ -759,7 +759,7 @@ func Discharge(vcs []*VC, outDir string, timeoutS int, par int) {
 		go func(i int, j job) {
 			defer wg.Done()
 			defer func() { <-sem }()
-			if j.o.Kind == "forbid" {
+			if j.o.Kind == "forbid" || j.o.Kind == "anchors" {
 				// syntactic obligation: decided when it was generated
 				j.o.Status, j.o.Backend = "unsat", "syntactic"
 				if !strings.HasSuffix(j.o.Goal.S, "true") && !strings.HasSuffix(j.o.Goal.S, "true)") {
